@@ -40,16 +40,17 @@ def session_worker(args):
         def _alarm(signum, frame):
             raise _Slow()
         signal.signal(signal.SIGALRM, _alarm)
-        signal.alarm(150)
+        signal.setitimer(signal.ITIMER_REAL, 150, 5)     # repeating, in case the first exception is swallowed by a finalizer
         try:
             s = ra.perform_session(sd)
-            signal.alarm(0)
+            signal.setitimer(signal.ITIMER_REAL, 0)
         except _Slow:
+            signal.setitimer(signal.ITIMER_REAL, 0)
             r["slow"] = True          # acceptance too rare to finish in time: nothing to judge
             out.append(r)
             continue
         except Exception:
-            signal.alarm(0)
+            signal.setitimer(signal.ITIMER_REAL, 0)
             import traceback
             r["machinery"] = traceback.format_exc()[-600:]
             out.append(r)
